@@ -429,3 +429,60 @@ def reassigns_item(n):
         if l.get("kind") == "DeclRefExpr" and l["referencedDecl"]["name"] == ITEM_VAR:
             return True
     return any(reassigns_item(c) for c in n.get("inner", []) if isinstance(c, dict))
+
+
+# ----------------------------------------------------------------------------
+# small pattern translators used by C01 (selection kernel)
+# ----------------------------------------------------------------------------
+def chain(e):
+    """textual access path of a DeclRefExpr/MemberExpr chain, e.g. component->selected_pair.priority"""
+    e = strip(e)
+    if e.get("kind") == "DeclRefExpr":
+        return e["referencedDecl"]["name"]
+    if e.get("kind") == "MemberExpr":
+        return chain(e["inner"][0]) + ("->" if e.get("isArrow") else ".") + e["name"]
+    return None
+
+
+def find_all(n, kind):
+    if n.get("kind") == kind:
+        yield n
+    for c in n.get("inner", []):
+        if isinstance(c, dict):
+            yield from find_all(c, kind)
+
+
+def translate_guard(fdecl, lhs, rhs, lean_name, U):
+    """the first `if (<lhs> OP <rhs>)` of the function, as a Lean predicate over two naturals"""
+    for st in find_all(fdecl, "IfStmt"):
+        c = strip(st["inner"][0])
+        if c.get("kind") == "BinaryOperator" and c.get("opcode") in (">", ">=", "<", "<=", "==", "!="):
+            a, b = chain(c["inner"][0]), chain(c["inner"][1])
+            op = {">": ">", ">=": "≥", "<": "<", "<=": "≤", "==": "=", "!=": "≠"}[c["opcode"]]
+            if a == lhs and b == rhs:
+                return f"def {lean_name} (a b : Nat) : Bool := decide (a {op} b)"
+            if a == rhs and b == lhs:
+                return f"def {lean_name} (a b : Nat) : Bool := decide (b {op} a)"
+    raise U(f"guard `{lhs} <op> {rhs}` not found")
+
+
+def translate_pair_priority_dispatch(fdecl, U):
+    """agent_candidate_pair_priority: if (agent->controlling_mode) return f (x->priority, y->priority); else return f (..)"""
+    ifs = list(find_all(fdecl, "IfStmt"))
+    if len(ifs) != 1 or chain(ifs[0]["inner"][0]) != "agent->controlling_mode" or len(ifs[0]["inner"]) != 3:
+        raise U("agent_candidate_pair_priority is not `if (agent->controlling_mode) .. else ..`")
+
+    def branch(n):
+        rets = list(find_all(n, "ReturnStmt"))
+        if len(rets) != 1:
+            raise U("branch without a single return")
+        call = strip(rets[0]["inner"][0])
+        if call.get("kind") != "CallExpr" or chain(call["inner"][0]) != "nice_candidate_pair_priority" or len(call["inner"]) != 3:
+            raise U("branch does not return nice_candidate_pair_priority (a, b)")
+        names = {"local->priority": "lp", "remote->priority": "rp"}
+        args = [names.get(chain(a)) for a in call["inner"][1:]]
+        if None in args:
+            raise U("unexpected argument of nice_candidate_pair_priority")
+        return f"nice_candidate_pair_priority {args[0]} {args[1]}"
+    return ("def agent_candidate_pair_priority (controlling : Bool) (lp rp : UInt32) : UInt64 :=\n"
+            f"  if controlling then {branch(ifs[0]['inner'][1])} else {branch(ifs[0]['inner'][2])}")
